@@ -37,6 +37,9 @@ func (s dbSpec) cmds() []Cmd {
 		return uIdentical(12)
 	case "forty":
 		return uForty()
+	case "sugties":
+		// words with equal fuzzy quality for "tar": suggestion ties
+		return []Cmd{{Command: "tart x", Description: "tarp tars"}, {Command: "tarn y", Description: "tare tarq"}, {Command: "tark z", Description: "tarw taru"}}
 	}
 	return uPick(uPool(), s.Pool)
 }
